@@ -54,7 +54,9 @@ func abstractRule(r aa.Rule) absRule {
 				if q.Audit {
 					a.Q = "audit "
 				}
-				a.Q += q.AccessType
+				if q.AccessType != "allow" { // allow is the default access type written out: the same facts
+					a.Q += q.AccessType
+				}
 			case fv.Kind() == reflect.Struct:
 				walk(fv, prefix+f.Name+".")
 			case fv.Kind() == reflect.Slice && fv.Type().Elem().Kind() == reflect.String:
@@ -134,20 +136,20 @@ var mcMenuTexts = []string{
 
 // near-duplicate menus per kind: neighbours differ in exactly one thing
 var kindMenus = map[string][]string{
-	"file": {"/foo rwk,", "/foo m,", "/srv/b rwk,", "@{bin}/foo mrix,", "/etc/a mrix,", "/foo r,", "/Foo r,", "/foo w,", "/foo rw,", "owner /foo r,", "audit /foo r,", "deny /foo r,", "/foo r, # note", "/foé r,", "/foè r,",
+	"file": {"/foo rwk,", "/foo m,", "/srv/b rwk,", "@{bin}/foo mrix,", "/etc/a mrix,", "/foo r,", "/Foo r,", "/foo w,", "/foo rw,", "owner /foo r,", "audit /foo r,", "deny /foo r,", "allow /foo w,", "audit allow /foo r,", "audit allow /foo w,", "audit /foo w,", "/foo r, # note", "/foé r,", "/foè r,",
 		"@{bin}/foo r,", "@{bin}/foo rix,", "@{bin}/foo rPx -> t1,", "@{bin}/foo rPx -> t2,", "/srv/a r,", "/srv/b r,", "/etc/a r,", "@{HOME}/a r,", "/a r,", "/z r,",
 		"\"/etc/a\" r,", "\"/srv/a\" r,", "\"/srv/a b\" r,", "/foo/ w,", "/foo//x r,", "/foo/x w,", "/dev/tty01 rw,", "/dev/tty1 rw,", "/dev/tty001 rw,", "/dev/tty10 rw,", "/dev/tty2 rw,",
 		"/srv/ΛΉΨΕΙΣ/ r,", "/srv/λήψεις/ r,", "/srv/λήψεις/** r,", "/srv/ſ r,", "/srv/s r,", "/srv/S r,", "/srv/µ r,", "/srv/μ r,", "/srv/İ r,", "/srv/i r,", "/dev/shm/a rw,", "/dev/a rw,", "@{run}/a r,", "/tmp/a r,", "@{lib}/a mr,", "/opt/a r,", "/usr/share/a r,", "/var/a r,"},
 	"link":           {"link /a -> /b,", "link /a -> /c,", "link subset /a -> /b,", "owner link /a -> /b,", "deny link /a -> /b,", "link /A -> /b,"},
-	"capability":     {"capability chown,", "capability kill,", "capability chown kill,", "audit capability chown,", "deny capability chown,", "capability,"},
-	"network":        {"network inet stream,", "network inet dgram,", "network inet6 stream,", "network netlink raw,", "deny network inet stream,", "audit network inet stream,", "network inet,"},
-	"mount":          {"mount /a -> /b,", "mount /a -> /c,", "mount options=(ro) /a -> /b,", "mount options=(rw) /a -> /b,", "mount fstype=ext4 /a -> /b,", "mount options=(ro) fstype=ext4 /a -> /b,", "deny mount /a -> /b,", "mount -> /b,"},
-	"umount":         {"umount /a,", "umount /b,", "deny umount /a,", "audit umount /a,"},
+	"capability":     {"capability chown,", "capability kill,", "capability chown kill,", "audit capability chown,", "deny capability chown,", "capability,", "allow capability kill,", "audit allow capability chown,"},
+	"network":        {"network inet stream,", "network inet dgram,", "network inet6 stream,", "network netlink raw,", "deny network inet stream,", "audit network inet stream,", "network inet,", "allow network inet stream,", "audit allow network inet dgram,"},
+	"mount":          {"mount /a -> /b,", "mount /a -> /c,", "mount options=(ro) /a -> /b,", "mount options=(rw) /a -> /b,", "mount fstype=ext4 /a -> /b,", "mount options=(ro) fstype=ext4 /a -> /b,", "deny mount /a -> /b,", "mount -> /b,", "allow mount options=(rw) /a -> /b,", "audit allow mount options=(ro) /a -> /b,"},
+	"umount":         {"umount /a,", "umount /b,", "deny umount /a,", "audit umount /a,", "allow umount /a,"},
 	"remount":        {"remount /a,", "remount /b,", "remount options=(ro) /a,", "deny remount /a,"},
 	"pivot_root":     {"pivot_root oldroot=/a /b,", "pivot_root oldroot=/a /c,", "pivot_root oldroot=/a /b -> p,", "pivot_root /b,"},
 	"change_profile": {"change_profile -> a,", "change_profile -> b,", "change_profile /x -> a,", "change_profile unsafe /x -> a,", "deny change_profile -> a,"},
-	"signal":         {"signal send set=hup peer=p,", "signal receive set=hup peer=p,", "signal send set=int peer=p,", "signal (send receive) set=hup peer=p,", "signal send set=(hup int) peer=p,", "signal send peer=p,", "signal send set=hup peer=q,", "signal send set=hup,", "deny signal send set=hup peer=p,", "signal,"},
-	"ptrace":         {"ptrace read peer=p,", "ptrace trace peer=p,", "ptrace read peer=q,", "ptrace (read trace) peer=p,", "ptrace peer=p,", "deny ptrace read peer=p,", "ptrace read,"},
+	"signal":         {"signal send set=hup peer=p,", "signal receive set=hup peer=p,", "signal send set=int peer=p,", "signal (send receive) set=hup peer=p,", "signal send set=(hup int) peer=p,", "signal send peer=p,", "signal send set=hup peer=q,", "signal send set=hup,", "deny signal send set=hup peer=p,", "signal,", "allow signal send set=int peer=p,", "audit allow signal send set=hup peer=p,"},
+	"ptrace":         {"ptrace read peer=p,", "ptrace trace peer=p,", "ptrace read peer=q,", "ptrace (read trace) peer=p,", "ptrace peer=p,", "deny ptrace read peer=p,", "ptrace read,", "allow ptrace trace peer=p,", "audit allow ptrace read peer=p,"},
 	"unix":           {"unix send type=stream,", "unix receive type=stream,", "unix send type=dgram,", "unix send type=stream addr=@a,", "unix send type=stream addr=none,", "unix receive type=stream addr=none,", "unix send type=stream peer=(label=l, addr=none),", "unix send type=stream peer=(label=l),", "unix send type=stream peer=(label=m),", "unix send type=stream peer=(addr=@b),", "deny unix send type=stream,", "unix,"},
 	"dbus":           {"dbus send bus=session path=/a interface=i member=m peer=(name=n label=l),", "dbus receive bus=session path=/a interface=i member=m peer=(name=n label=l),", "dbus send bus=system path=/a interface=i member=m peer=(name=n label=l),", "dbus send bus=session path=/b interface=i member=m peer=(name=n label=l),", "dbus send bus=session path=/a interface=j member=m peer=(name=n label=l),", "dbus send bus=session path=/a interface=i member=k peer=(name=n label=l),", "dbus send bus=session path=/a interface=i member=m peer=(name=o label=l),", "dbus send bus=session path=/a interface=i member=m peer=(name=n label=q),", "dbus bind bus=session name=n,", "dbus bind bus=session name=o,", "deny dbus send bus=session path=/a interface=i member=m peer=(name=n label=l),"},
 	"rlimit":         {"set rlimit nofile <= 10,", "set rlimit nofile <= 20,", "set rlimit nproc <= 10,"},
